@@ -10,7 +10,7 @@ import (
 func init() {
 	register(&propDef{
 		ID:          "C17",
-		Explanation: "Sibling-agreement, value-origin and ordering rules for unknown information elements, decided on SSA: (1) in the template field reader every registry lookup (one per sibling branch: IANA / enterprise) is followed, on its miss edge, by 'decodingMode == Strict => return the error', and otherwise by the substitute NewInfoElement(\"\", id, OctetArray, enterprise, length) whose id and enterprise number are the very values passed to the lookup and whose length is the field-length wire variable of this field specifier (not the registry default, not VariableLength, not a cached element); both branches have the same shape; (2) in the data reader every bytes.Buffer.Next(n) takes n from the one length selection 'getFieldLength() if ie.Len == VariableLength else int(ie.Len)', that Next dominates the drop decision, and the drop decision is exactly decodingMode == LenientDropUnknown && ie.Name == \"\" whose taken edge skips only the append - so the bytes of an unknown field are consumed identically in all three modes and known fields keep their alignment; (3) no registry literal has an empty name (a known field can never be dropped); (4) keep mode: the octet-array case of the element decoder copies exactly the bytes it is given. Strict mode's 'the data that follows is rejected' is C04's rule (no template stored on the error path). Not decided: value equality of known fields across modes (implied by identical consumption). Later additions: field-specifier values are fresh per field; the stored field list is replaced unconditionally (a placeholder's length comes from the template); reverse-registry entries only under err == nil.",
+		Explanation: "Sibling-agreement, value-origin and ordering rules for unknown information elements, decided on SSA: (1) in the template field reader every registry lookup (one per sibling branch: IANA / enterprise) is followed, on its miss edge, by 'decodingMode == Strict => return the error', and otherwise by the substitute NewInfoElement(\"\", id, OctetArray, enterprise, length) whose id and enterprise number are the very values passed to the lookup and whose length is the field-length wire variable of this field specifier (not the registry default, not VariableLength, not a cached element); both branches have the same shape; (2) in the data reader every bytes.Buffer.Next(n) takes n from the one length selection 'getFieldLength() if ie.Len == VariableLength else int(ie.Len)', that Next dominates the drop decision, and the drop decision is exactly decodingMode == LenientDropUnknown && ie.Name == \"\" whose taken edge skips only the append - so the bytes of an unknown field are consumed identically in all three modes and known fields keep their alignment; (3) no registry literal has an empty name (a known field can never be dropped); (4) keep mode: the octet-array case of the element decoder copies exactly the bytes it is given. Strict mode's 'the data that follows is rejected' is C04's rule (no template stored on the error path). Not decided: value equality of known fields across modes (implied by identical consumption). Later additions: field-specifier values are fresh per field; the stored field list is replaced unconditionally (a placeholder's length comes from the template); reverse-registry entries only under err == nil. Round-five additions: the decodingMode field is initialised from the defaulted value (empty input means strict).",
 		Assume:      []string{"registry.GetInfoElementFromID returns an error exactly when the element is not registered"},
 		Run:         runC17,
 	})
